@@ -1373,8 +1373,13 @@ std::string Generator::GeneratorImpl::generateOperatorCode(const std::string &op
         auto rightOperand = operand(astRightChild);
         auto leftNot = (leftOperand->type() == AnalyserEquationAst::Type::NOT) && mProfile->hasNotOperator();
 
-        astLeftChildCode = parenthesisedIfNeeded(astLeftChildCode, (leftPrecedence > 0) && ((leftPrecedence < precedence) || (comparison && (leftNot || isRelationalOperator(leftOperand)))));
-        astRightChildCode = parenthesisedIfNeeded(astRightChildCode, (rightPrecedence > 0) && ((rightPrecedence < precedence) || ((rightPrecedence == precedence) && !associative) || (comparison && isRelationalOperator(rightOperand))));
+        // Note: likewise, an "and" below a unary plus that is an operand of an "or" is parenthesised, as it is without the
+        //       unary plus ("(a && b) || c"): C compilers otherwise suggest parentheses around '&&' within '||'.
+
+        auto disjunction = isOrOperator(ast);
+
+        astLeftChildCode = parenthesisedIfNeeded(astLeftChildCode, (leftPrecedence > 0) && ((leftPrecedence < precedence) || (comparison && (leftNot || isRelationalOperator(leftOperand))) || (disjunction && isAndOperator(leftOperand))));
+        astRightChildCode = parenthesisedIfNeeded(astRightChildCode, (rightPrecedence > 0) && ((rightPrecedence < precedence) || ((rightPrecedence == precedence) && !associative) || (comparison && isRelationalOperator(rightOperand)) || (disjunction && isAndOperator(rightOperand))));
     }
 
     return astLeftChildCode + op + astRightChildCode;
